@@ -91,4 +91,9 @@ Section Cover.
         mem_nat o (dead m) || mem_nat o reach || mem_nat o covered || mem_nat o pinned
       | _, _ => true
       end) (imap (fun o x => (o, x)) (heap m)).
+  (** every allocated live CleanerMap is owned (its Cleaner's handle, or a clean() in progress):
+      the second hypothesis of Props/C02.C02_quiet_partial, tested like [cover_b] *)
+  Definition maps_owned_b (m : machine) : bool :=
+    forallb (fun x => negb (o_ismap x) || negb (is_alloc x) || negb (is_live x)
+                      || negb (N.eqb (h_rc (o_hdr x)) 0)) (heap m).
 End Cover.
